@@ -12,7 +12,7 @@ ID = "C04"
 TITLE = "PCovR interpolates optimally and monotonically between PCA and regression"
 TECHNIQUE = 'Hypothesis PBT with reference oracles (PCA, least squares, Ky-Fan optimum) and competitor subspaces (metamorphic perturbation)'
 LEVEL = 'Generated-input exploration: end points against sklearn PCA and X pinv(X) Y, optimality against the analytic optimum and 12-30 competitor subspaces per case, monotone trade-off along drawn mixing grids. No absence claim: strength = the counted distinct non-trivial cases in the evidence.'
-BUDGET = {"quick": 600, "thorough": 5000}
+BUDGET = {"quick": 600, "thorough": 12000}
 RULE = ("Cases: centred unit-variance X (tall/wide/square, 30% rank-deficient), Y = XB + noise (1..3 targets), k in "
         "1..min(n,m), space feature/sample, Ridge(alpha in {1e-6,1e-2,1}) without intercept, one drawn mixing in "
         "{0,.1,.3,.5,.7,.9,1} for the optimality check and a drawn increasing grid of 3..6 mixings in [0,1] for the monotonicity "
